@@ -403,7 +403,7 @@ def unit_update(U):
             db = p.value
             sel = [e for e in IM.classify(p.ctx.effects) if e.kind == "select" and e.table in ("autoincrements", "directives", "meta")]
             plain = len(sel) == 3 and all(Q.select_info(e.stmt.node).where is None and not Q.select_info(e.stmt.node).joins for e in sel) and \
-                [Q.expr_text(c) for c, _ in Q.select_info([e for e in sel if e.table == "autoincrements"][0].stmt.node).columns] == ["base", "n"]
+                Q.select_cols(Q.select_info([e for e in sel if e.table == "autoincrements"][0].stmt.node)) == ["base", "n"]
             ok = (plain and isinstance(db._autoincrements, collections.defaultdict) and dict(db._autoincrements) == {"exon": 4, "gene": 1} and db._autoincrements["never"] == 0
                   and db.directives == ["d1", "d2"] and db.dialect == {"fmt": "gff3"} and db.version == "0.x"
                   and not [e for e in IM.classify(p.ctx.effects) if e.kind in ("insert", "update", "delete")])
